@@ -68,6 +68,8 @@ struct Sess {
         nix::DataArray a5 = b.createDataArray("a5", "t", nix::DataType::Double, nix::NDSize({2, 3}));
         a5.appendRangeDimension({0.0, 1.0}, "x", "ms"); a5.appendRangeDimension({0.0, 0.5, 1.0}, "y", "ms");
         a5.unit("V");
+        nix::DataArray a6 = b.createDataArray("a6", "t", nix::DataType::Double, nix::NDSize({2, 3}));
+        a6.appendSampledDimension(1.0, "t", "ms"); a6.appendSampledDimension(2.0, "v", "mV"); a6.unit("V");
         nix::DataArray af1 = b.createDataArray("af1", "t", nix::DataType::Double, nix::NDSize({2})); af1.unit("V"); af1.appendSetDimension();
         nix::DataArray af2 = b.createDataArray("af2", "t", nix::DataType::Double, nix::NDSize({2})); af2.unit("V"); af2.appendSetDimension();
         nix::Tag t = b.createTag("tag", "t", {1.0, 2.0});
@@ -75,6 +77,9 @@ struct Sess {
         t.units({"us", "V"});
         t.addReference(a1);
         t.createFeature(af1, nix::LinkType::Untagged);
+        nix::Tag t2 = b.createTag("tag2", "t", {1.0, 2.0});
+        t2.units({"us", "uV"});
+        t2.addReference(a6);
         nix::DataArray p = b.createDataArray("pos", "t", nix::DataType::Double, nix::NDSize({2})); p.unit("s"); p.appendSetDimension();
         nix::MultiTag m = b.createMultiTag("mtag", "t", p);
         m.addReference(a2);
@@ -118,6 +123,10 @@ struct Sess {
         } else if (k == "prop_nounit") { nix::Property pr = f.getSection("sec").getProperty("prop"); if (on("prop_nounit")) pr.unit(nix::none); else pr.unit("mV");
         } else if (k == "featnodata") { b().deleteDataArray("af1");
         } else if (k == "featnodata2") { b().deleteDataArray("af2");
+        } else if (k == "ndims_missing" || k == "ndims_none") {
+            nix::DataArray a6 = arr("a6"); a6.deleteDimensions();
+            if (!on("ndims_none")) a6.appendSampledDimension(1.0, "t", "ms");
+            if (!on("ndims_none") && !on("ndims_missing")) a6.appendSampledDimension(2.0, "v", "mV");
         } else if (k == "nopositions") { close(); h5Unlink(path, "/data/b/multi_tags/mtag", "positions"); open();
         } else throw std::runtime_error("harness: unknown breach " + k);
     }
@@ -141,6 +150,8 @@ struct Sess {
         rec1("A3", [&] { return nix::valid::validate(a3); });
         rec1("A4", [&] { return nix::valid::validate(a4); });
         rec1("A5", [&] { return nix::valid::validate(a5); });
+        rec1("A6", [&] { return nix::valid::validate(b.getDataArray("a6")); });
+        rec1("T2", [&] { return nix::valid::validate(b.getTag("tag2")); });
         rec1("D11", [&] { return nix::valid::validate(a1.getDimension(1).asSampledDimension()); });
         rec1("D12", [&] { return nix::valid::validate(a1.getDimension(2).asRangeDimension()); });
         rec1("D21", [&] { return nix::valid::validate(a2.getDimension(1).asSetDimension()); });
@@ -177,7 +188,7 @@ json handle(Ctx &c, const json &rec) {
         else if (a == "Validate") {
             json obs, details;
             std::string d = s.validate(st["errors"], obs, details);
-            n += 17;
+            n += 19;
             if (!d.empty()) {
                 json exp = st["errors"];
                 json r = mismatch("valid:step" + std::to_string(i + 1) + ":" + d, exp, obs);
